@@ -41,7 +41,11 @@ ReuseViol(e) ==
   Check("C05", "decoder-total-no-panic", ~Has(g, "panic") /\ ~Has(e.fresh, "panic"), c)
   \cup (IF Has(g, "panic") \/ Has(e.fresh, "panic") THEN {}
         ELSE Check("C17", "reused-value-equals-fresh-decode", g = e.fresh, c)
-             \cup (IF Has(e.exp, "any") \/ g.err \/ e.exp.err THEN {} ELSE Check("C17", "reused-value-equals-specification", Agrees(g.value, e.exp.value), c)))
+             \cup (IF Has(e.exp, "any") THEN {}
+                   ELSE IF e.exp.err THEN {}
+                   ELSE IF g.err THEN Check(e.prop, "valid-encoding-accepted", FALSE, c)
+                   ELSE Check(e.prop, IF e.prop = "C17" THEN "reused-value-equals-specification"
+                                      ELSE "decodes-to-specified-values-whatever-was-decoded-before", Agrees(g.value, e.exp.value), c)))
 SerViol(e) ==
   LET g == e.got  x == e.exp  c == Ctx(e) IN
   Check("C05", "serializer-no-panic", ~Has(g, "panic"), c)
